@@ -202,6 +202,36 @@ fn snippet(rng: &mut Rng, focus: &str, m: &Mix, out: &mut Vec<Op>) {
     let l = |i: u16| RootRef { g: false, i };
     let gl = |i: u16| RootRef { g: true, i };
     match focus {
+        // several chunk regions in one space, then free the oldest region (the tail of the list)
+        "C28" | "C29" => {
+            let n = rng.range(4, 12) as u16;
+            for j in 0..n {
+                out.push(Op::Alloc {
+                    size: rng.range(600 << 10, 1800 << 10) as usize,
+                    align: 8,
+                    offset: 0,
+                    sem: if rng.chance(4, 5) { SEM_LOS } else { SEM_DEFAULT },
+                    nrefs: 2,
+                    kind: 0,
+                    root: l(8 + j),
+                });
+            }
+            // drop the oldest (first region) or a random subset, collect, allocate again
+            let k = rng.range(1, n as u64) as u16;
+            for j in 0..k {
+                out.push(Op::Drop { root: l(8 + j) });
+            }
+            out.push(Op::Gc { force: true, exhaustive: rng.chance(1, 2) });
+            for j in 0..rng.range(0, 4) as u16 {
+                out.push(Op::Alloc { size: rng.range(300 << 10, 1200 << 10) as usize, align: 8, offset: 0, sem: SEM_LOS, nrefs: 1, kind: 0, root: l(8 + j) });
+            }
+            if rng.chance(1, 2) {
+                for j in 0..20u16 {
+                    out.push(Op::Drop { root: l(8 + j) });
+                }
+                out.push(Op::Gc { force: true, exhaustive: true });
+            }
+        }
         // SATB: an object of the snapshot whose fields are deleted one after the other while
         // marking may be running; every former referent is reachable only through it
         "C12" => {
@@ -502,6 +532,7 @@ pub fn profile(focus: &str) -> Profile {
         }
         "C28" | "C29" => {
             plans = collecting();
+            snippet_pct = 8;
             m.big_pct = 30;
             m.drop = 16;
             m.gc = 5;
@@ -768,6 +799,7 @@ pub fn gen_spec(seed: u64, focus: &str, tier: &str) -> RunSpec {
     } as usize;
     let heap_mb = match focus {
         "C10" | "C09" | "C34" => *rng.pick(&[2usize, 4, 8]),
+        "C29" | "C28" => *rng.pick(&[16usize, 32, 48]),
         "C12" => *rng.pick(&[2usize, 2, 4]),
         _ => *rng.pick(&[4usize, 8, 16, 32]),
     };
@@ -791,6 +823,7 @@ pub fn gen_spec(seed: u64, focus: &str, tier: &str) -> RunSpec {
         stress_factor: if focus != "C12" && rng.chance(1, 3) { Some(*rng.pick(&[4096usize, 16384, 65536, 262144, 1 << 20])) } else { None },
         nursery: if rng.chance(1, 2) { Some((1 << 20, *rng.pick(&[1usize << 20, 2 << 20, 4 << 20]))) } else { None },
         layout32: if focus == "C29" { true } else { rng.chance(1, 25) },
+        layout32_chunks: if focus == "C29" && rng.chance(1, 3) { rng.range(5, 40) as usize } else { 0 },
         no_finalizer: focus != "C06" && rng.chance(1, 20),
         no_reference_types: focus != "C06" && rng.chance(1, 20),
         full_heap_system_gc: rng.chance(1, 3),
@@ -854,6 +887,12 @@ pub fn gen_spec(seed: u64, focus: &str, tier: &str) -> RunSpec {
     // KF-CONCIMMIX-HEADER-LOGBIT: the SATB barrier is never armed with an in-header log bit.
     if !cfg.kf_probe && cfg!(feature = "var_b") && cfg.plan == "ConcurrentImmix" {
         cfg.plan = "Immix".to_string();
+    }
+    // An address range smaller than what the plan may need is an illegal configuration for plans
+    // that copy during a GC (they panic when to-space pages cannot be had): only non-moving
+    // plans run with a range tight enough for chunk requests to fail.
+    if cfg.layout32_chunks > 0 && !matches!(cfg.plan.as_str(), "MarkSweep" | "PageProtect") {
+        cfg.layout32_chunks = cfg.layout32_chunks.max(3 * (cfg.heap_bytes >> 22) + 8);
     }
     if cfg.plan == "NoGC" {
         // A stress GC under NoGC reaches `unreachable!("GC triggered in nogc")` by design.
